@@ -196,7 +196,7 @@ theorem Side.eps_le {P : ℕ} {ax : Dec} {A a : ℤ} (S : Side P ax A a) :
 theorem stage_down (cc : Ctx) (P : ℕ) (ax : Dec) (A a : ℤ) (S : Side P ax A a) (hw : NCtx cc (P * 2 + 2))
     (hax : Pos ax) :
     ∃ ed1 z1 d, scaleLoop (fun z => decide (z.cmp decOneEighth < 0)) decEight 400000 { c := cc } ax 0 =
-        some (ed1, z1, d) ∧
+        some (.inr (ed1, z1, d)) ∧
       EDg cc ed1 ∧ Pos z1 ∧ (z1 = ax ∨ ndigits z1.coeff ≤ P * 2 + 2) ∧ d ≤ 2 * A.natAbs + 1 ∧
       Bnd (P * 2 + 2) ax.toRat 8 d z1.toRat ∧ 1 / 8 ≤ z1.toRat ∧
       ((d = 0 ∧ z1 = ax) ∨ z1.toRat ≤ 1 + eps (P * 2 + 2)) := by
@@ -273,7 +273,7 @@ theorem stage_up (cc : Ctx) (P : ℕ) (ax : Dec) (A a : ℤ) (S : Side P ax A a)
     (hax : Pos ax) (ed1 : ED) (z1 : Dec) (d : ℕ) (he1 : EDg cc ed1) (hz1 : Pos z1)
     (hd1 : z1 = ax ∨ ndigits z1.coeff ≤ P * 2 + 2) (hdB : d ≤ 2 * A.natAbs + 1) (hge : 1 / 8 ≤ z1.toRat)
     (hlast : (d = 0 ∧ z1 = ax) ∨ z1.toRat ≤ 1 + eps (P * 2 + 2)) :
-    ∃ ed2 z2 u, scaleLoop (fun z => decide (z.cmp decOne > 0)) decOneEighth 400000 ed1 z1 0 = some (ed2, z2, u) ∧
+    ∃ ed2 z2 u, scaleLoop (fun z => decide (z.cmp decOne > 0)) decOneEighth 400000 ed1 z1 0 = some (.inr (ed2, z2, u)) ∧
       EDg cc ed2 ∧ Pos z2 ∧ (z2 = ax ∨ ndigits z2.coeff ≤ P * 2 + 2) ∧ d + u ≤ 2 * A.natAbs + 2 ∧
       Bnd (P * 2 + 2) z1.toRat (1 / 8) u z2.toRat ∧ 1249 / 10000 ≤ z2.toRat ∧ z2.toRat ≤ 1 := by
   have hp4 : 4 ≤ P * 2 + 2 := by have := S.hP; omega
